@@ -23,6 +23,7 @@ type gor struct {
 	yielded bool        // parked at ndYield
 	done    bool
 	depth   int
+	frame   *frame
 	what    string
 }
 
@@ -83,6 +84,7 @@ func (i *interpreter) spawn(fn value, args []value, pos token.Pos) {
 		}
 		s.cur = g
 		i.depth = 0
+		i.curFrame = nil
 		func() {
 			defer func() {
 				if r := recover(); r != nil {
@@ -122,6 +124,7 @@ func (i *interpreter) yield() {
 func (i *interpreter) switchAway(g *gor, ending bool) {
 	s := i.sched
 	g.depth = i.depth
+	g.frame = i.curFrame
 	next := i.pickNext()
 	if next == nil {
 		// nothing can run
@@ -165,6 +168,7 @@ func (i *interpreter) switchAway(g *gor, ending bool) {
 	}
 	s.cur = g
 	i.depth = g.depth
+	i.curFrame = g.frame
 }
 
 func (i *interpreter) pickNext() *gor {
